@@ -95,6 +95,28 @@ def _hexdigest(cname):
                 res.append(({"kind": "raise", "part": "get_hex_digest",
                              "what": "get_hex_digest raised %s for an accepted spelling" % type(e).__name__},
                             {"content": cname, "spelling": sp}))
+    # the object file altered on disk (bit rot, truncated restore): every digest must describe the bytes that
+    # retrieve_object now returns, for every algorithm including the store's own
+    from ..absx import Layout
+    cid = hashlib.sha256(data).hexdigest()
+    objpath = os.path.join(root, Layout().obj_path(cid))
+    with open(objpath, "ab") as f:
+        f.write(b"altered")
+    s = store.retrieve_object("h")
+    now = s.read()
+    s.close()
+    for a in ALL_ALGOS:
+        for sp in spellings(a)[:3]:
+            n += 1
+            try:
+                got = store.get_hex_digest("h", sp)
+                if got != hashlib.new(a, now).hexdigest():
+                    res.append(({"kind": "value", "part": "get_hex_digest",
+                                 "what": "get_hex_digest does not describe the bytes the store holds for the pid"},
+                                {"content": cname, "spelling": sp, "state": "object file altered on disk"}))
+            except Exception as e:  # noqa: BLE001
+                res.append(({"kind": "raise", "part": "get_hex_digest", "what": "get_hex_digest raised %s" % type(e).__name__},
+                            {"content": cname, "spelling": sp, "state": "object file altered on disk"}))
     return n, res
 
 
